@@ -26,6 +26,8 @@ S(s) == {s[i] : i \in DOMAIN s}
 Hurt == {e \in S(Ln.effects) : e.effect # "same"}
 
 C12_NeverCleanOnDamage == (Hurt # {}) => Ln.val # "clean"
+(* "(it names the object or fails)": every hurt object is mentioned by the report, unless validation raised *)
+C12_NamesTheObjectOrFails == Ln.val = "raised" \/ \A e \in Hurt : e.k \in S(Ln.named)
 (* sanity of the oracle itself: the undamaged container validates clean and has no hurt object *)
 C12_BaselineClean == (Ln.damage.kind = "none") => (Hurt = {} /\ Ln.val = "clean")
 =============================================================================
